@@ -578,7 +578,6 @@ func sameValue(a, b ssa.Value) bool {
 	return false
 }
 
-
 // argmaxIdiom recognises `if x.<field> > max { max = x.<field>; arg = k }`
 // carried round a loop: it returns the running maximum and the variables
 // that are updated together with it (the position of the maximum).
